@@ -1047,7 +1047,7 @@ Proof.
       * destruct (0 <? length pos); simpl; rewrite ?SS; reflexivity.
     + apply all_str_cons in AS as [S _]. simpl in S. rewrite py_kw_nil_none by exact S.
       destruct (negb (s_star s) && (0 <? length pos)); [reflexivity|].
-      change (0 <? Datatypes.S (length rest)) with true. cbv iota.
+      change (0 <? length ((k, v) :: rest)) with true. cbv iota.
       rewrite (erase_err V s (reject_keywords pth ((k, v) :: rest))) by (apply RK; reflexivity). reflexivity.
 Qed.
 
